@@ -87,6 +87,9 @@ pub struct TSpec {
     pub env: Vec<(Vec<u8>, Vec<u8>)>,
     /// private tmpfs root: (files to create inside: (path, size, seed, prefix bytes))
     pub pivot: Option<Vec<(Vec<u8>, u64, u64, Vec<u8>)>>,
+    /// the main thread exits after setup (zombie thread-group leader); no commands afterwards
+    #[serde(default)]
+    pub leader_exit: bool,
 }
 
 fn hex(b: &[u8]) -> String {
@@ -227,6 +230,9 @@ impl Target {
             let fx = t.fx.as_ref().map(|f| hex(f)).unwrap_or_else(|| "-".into());
             s.push_str(&format!("thread {} {} {} {:x} {:x} {:x} {} {}\n", t.id, t.kind, name, t.sp, t.aux, t.code, regs.join(" "), fx));
         }
+        if spec.leader_exit {
+            s.push_str("leaderexit\n");
+        }
         s.push_str("end\n");
         let spec_path = scratch.join("spec");
         std::fs::write(&spec_path, &s).map_err(|x| e("spec", x))?;
@@ -330,17 +336,30 @@ impl Target {
 
     /// Reads target memory through /proc/pid/mem (checker side ground truth).
     pub fn read_mem(&self, addr: u64, len: usize) -> Option<Vec<u8>> {
-        let f = self.mem.as_ref()?;
-        let mut v = vec![0u8; len];
-        let mut got = 0;
-        while got < len {
-            match f.read_at(&mut v[got..], addr + got as u64) {
-                Ok(0) => return None,
-                Ok(n) => got += n,
-                Err(_) => return None,
+        fn read_from(f: &std::fs::File, addr: u64, len: usize) -> Option<Vec<u8>> {
+            let mut v = vec![0u8; len];
+            let mut got = 0;
+            while got < len {
+                match f.read_at(&mut v[got..], addr + got as u64) {
+                    Ok(0) => return None,
+                    Ok(n) => got += n,
+                    Err(_) => return None,
+                }
+            }
+            Some(v)
+        }
+        if let Some(v) = self.mem.as_ref().and_then(|f| read_from(f, addr, len)) {
+            return Some(v);
+        }
+        // a zombie thread-group leader has no address space any more: go through a live thread
+        for tid in self.tids.values() {
+            if let Ok(f) = std::fs::File::open(format!("/proc/{tid}/mem")) {
+                if let Some(v) = read_from(&f, addr, len) {
+                    return Some(v);
+                }
             }
         }
-        Some(v)
+        None
     }
 
     pub fn read_u64(&self, addr: u64) -> Option<u64> {
@@ -400,6 +419,9 @@ impl Target {
         };
         loop {
             if blocked_in(self.pid, "0 ") {
+                break;
+            }
+            if spec.leader_exit && self.thread_status(self.pid).map(|(st, _)| st == 'Z').unwrap_or(false) {
                 break;
             }
             if Instant::now() > deadline {
